@@ -23,7 +23,7 @@ VARIABLES l, nviol
 vars == <<l, nviol>>
 
 EV == INSTANCE EventTimeWindow WITH
-        SIZES <- {1}, TMAX <- 0, WMAX <- 0, MAXE <- 0, MAXW <- 0, ITERS <- 0, KEYS <- {0}, BEFORE <- TRUE,
+        SIZES <- {1}, TMAX <- 0, WMAX <- 0, MAXE <- 0, MAXW <- 0, ITERS <- 0, KEYS <- {0}, BEFORE <- TRUE, FIX_F4 <- TRUE, ba <- 0,
         p <- 0, live <- 0, st <- 0, inp <- 0, outs <- 0, it <- 0, cnt <- 0, nw <- 0, lastw <- 0,
         nid <- 0, done <- 0
 
